@@ -137,10 +137,16 @@ Definition contains_version (b : bv) (v : Z) : bool :=
 Definition seqs_all_in (s e : Z) (seqs : iset) : bool :=
   match gaps s e seqs with [] => true | _ => false end.
 
+(* no seqs (an empty changeset: a claim about the whole version): contained
+   unless the version is held only partially *)
 Definition contains (b : bv) (v : Z) (seqs : option (Z * Z)) : bool :=
   contains_version b v &&
   match seqs with
-  | None => true
+  | None =>
+    match aget v (partials b) with
+    | Some p => match gaps 0 (p_last p) (p_seqs p) with [] => true | _ => false end
+    | None => true
+    end
   | Some (s, e) =>
     match aget v (partials b) with
     | Some p => seqs_all_in s e (p_seqs p)
